@@ -49,14 +49,15 @@ inline std::vector<uint8_t> encodeWav(const WavSpec& w)
 {
 	std::vector<uint8_t> body;
 	mc::putStr(body, "WAVE");
-	if (w.chunkBeforeFmt) putChunk(body, "LIST", extraChunkBody(w, 0));
+	// with decoys the extra chunks also carry ids that equal the real tags except for letter case (RIFF ids are case sensitive)
+	if (w.chunkBeforeFmt) putChunk(body, w.decoys ? "Fmt " : "LIST", extraChunkBody(w, 0));
 	std::vector<uint8_t> f;
 	mc::put16(f, w.fmt.tag); mc::put16(f, w.fmt.channels); mc::put32(f, w.fmt.rate); mc::put32(f, w.fmt.avgBytes); mc::put16(f, w.fmt.blockAlign); mc::put16(f, w.fmt.bits);
 	if (w.fmtSize >= 18) mc::put16(f, w.cbSizeValue);
 	putChunk(body, "fmt ", f);
-	if (w.chunkBetween) putChunk(body, "fact", extraChunkBody(w, 1));
+	if (w.chunkBetween) putChunk(body, w.decoys ? "DATA" : "fact", extraChunkBody(w, 1));
 	putChunk(body, "data", w.data);
-	if (w.chunkAfterData) putChunk(body, "cue ", extraChunkBody(w, 2));
+	if (w.chunkAfterData) putChunk(body, w.decoys ? "Data" : "cue ", extraChunkBody(w, 2));
 	std::vector<uint8_t> v;
 	mc::putStr(v, "RIFF"); mc::put32(v, uint32_t(body.size())); v.insert(v.end(), body.begin(), body.end());
 	return v;
